@@ -85,7 +85,7 @@ def _new_recipe(rng, known_shapes):
         "dir": {"dir0": rng.choice([0.0, 0.0, 5.0]), "order": rng.choice(["asc", "asc", "asc", "desc", "rot", "shuf"]), "shift": 1, "seed": rng.randrange(100),
                 "north360": rng.random() < 0.06},
         "dtype": rng.choice(["float64", "float64", "float64", "float32"]),
-        "data": {"kind": rng.choice(["int_bumps", "int_bumps", "int_multi", "peaked", "random"]), "seed": rng.randrange(10**6),
+        "data": {"kind": rng.choice(["int_bumps", "int_bumps", "int_multi", "peaked", "random", "gapped"]), "seed": rng.randrange(10**6),
                  "zero_at": rng.choice([-1, -1, -1, 0, 1]), "nan_at": rng.choice([-1] * 8 + [0, 1]), "nan_bins": rng.choice([0] * 9 + [3])},
         "spec_last": rng.random() < 0.85,
         "dir_first": rng.random() < 0.1,
@@ -334,11 +334,13 @@ def gen_plan(rng, tier="quick", prop="C18"):
                     continue
                 slot = rng.choice(cands)
             fmt = rng.choice(WRITER_FMTS)
-            if fmt == "funwave" and rng.random() < 0.6:
-                # Funwave takes one spectrum, E(f,d) or E(f): give it one (possibly with a few missing bins)
+            if fmt in ("funwave", "orcaflex") and rng.random() < 0.6:
+                # Funwave and OrcaFlex take one spectrum (E(f,d); Funwave also E(f)): give them one, possibly with a few missing
+                # bins, in either storage order of the spectral axes
                 slot = max(metas) + 1
                 r1 = _new_recipe(rng, known_shapes)
-                r1.update(dims=[], nd=rng.choice([0, 0, 4, 6, 8]), dir_first=False, spec_last=True)
+                r1.update(dims=rng.choice([[], [], [["time", 1]]]), nd=rng.choice([0, 0, 4, 6, 8]) if fmt == "funwave" else rng.choice([4, 6, 8, 12]),
+                          dir_first=(fmt == "orcaflex" and rng.random() < 0.5), spec_last=True)
                 r1["data"] = dict(r1["data"], nan_at=-1, zero_at=-1, nan_bins=rng.choice([0, 0, 2]))
                 steps.append({"op": "new", "slot": slot, "kind": "ds", "recipe": r1, "backing": rng.choice(["numpy", "numpy", "view"])})
                 metas[slot] = {"kind": "ds", "recipe": r1, "backing": steps[-1]["backing"], "prop": prop, "all": metas, "via": None}
@@ -372,7 +374,10 @@ def gen_plan(rng, tier="quick", prop="C18"):
                               "ddir": rng.choice([30.0, 45.0, 90.0]), "seed": rng.randrange(50), "directional": rng.random() < 0.7})
             else:
                 reader, fname, kw = rng.choice(SAMPLES)
-                steps.append({"op": "readsample", "reader": reader, "file": fname, "kw": kw})
+                steps.append({"op": "readsample", "reader": reader, "file": fname, "kw": kw, "rel": rng.random() < 0.3})
+                if rng.random() < 0.25:
+                    # the same file again (later calls in the same process must answer the same)
+                    steps.append(dict(steps[-1], rel=rng.random() < 0.3))
         elif kind == "construct":
             nf = rng.randint(4, 9)
             nd = rng.choice([4, 6, 8, 12])
@@ -903,6 +908,8 @@ SAMPLES = [
     ("open:octopus", "octopusfile.oct", {}), ("open:funwave", "funwavefile.txt", {}), ("open:triaxys", "triaxys.DIRSPEC", {}), ("open:era5", "era5file.nc", {}),
     ("open:ww3_station", "ww3station.spec", {}), ("open:spotter", "spotter_20180214.json", {}), ("open:ndbc_ascii", "ndbc/41010w2019part.txt.gz", {}),
     ("read_obscape", "obscape/19800102_123456_Obscape2d_course.csv", {}),
+    ("obscape_dir", "obscape", {"start": "1985-01-01", "end": "1995-01-01"}), ("obscape_dir", "obscape", {"start": "1975-01-01", "end": "1985-01-01"}),
+    ("obscape_dir", "obscape", {"start": "1985-01-01", "end": "1995-01-01", "stray": "notes.csv"}), ("obscape_dir", "obscape", {}),
     ("read_obscape", "obscape/19900102_123456_Obscape2d_fine.csv", {}),
     ("read_ndbc_ascii", "ndbc/41010w2019part.txt.gz", {}),
 ]
@@ -929,6 +936,9 @@ def write_triaxys(path, nf, df, ddir, seed, directional=True):
                 f.write(f" {i * df:.5E} {rng.uniform(0, 1) * (i > 5):.5E}\n")
 
 
+CWD0 = os.getcwd()
+
+
 def read_sample(repo, st, fs_root):
     import wavespectra as ws
 
@@ -939,6 +949,28 @@ def read_sample(repo, st, fs_root):
             write_triaxys(path, st["nf"], st["df"], st["ddir"], st["seed"], st["directional"])
         return ws.read_triaxys(path)
     path = os.path.join(repo, "tests", "sample_files", st["file"])
+    if st["reader"] == "obscape_dir":
+        # a deployment directory read through the directory reader (optionally with a file in it that is not a spectrum)
+        import datetime as _dt
+        import shutil
+
+        from wavespectra.input.obscape import read_obscape_dir
+
+        kw = st.get("kw", {})
+        d = path
+        if kw.get("stray"):
+            d = os.path.join(fs_root, "obscape_with_" + kw["stray"].replace(".", "_"))
+            if not os.path.isdir(d):
+                os.makedirs(fs_root, exist_ok=True)
+                shutil.copytree(path, d)
+                with open(os.path.join(d, kw["stray"]), "w") as f:
+                    f.write("deployment notes\n")
+        args = {}
+        if kw.get("start"):
+            args = {"start_date": _dt.datetime.fromisoformat(kw["start"]), "end_date": _dt.datetime.fromisoformat(kw["end"])}
+        return read_obscape_dir(d, **args).load()
+    if st.get("rel"):
+        path = os.path.relpath(path, CWD0)      # the caller works with paths relative to the directory the process was started in
     if st["reader"].startswith("open:"):
         import xarray as xr     # the reader reached through the xarray backend entry point the package registers
 
@@ -1077,6 +1109,25 @@ def execute(arg):
                 if d:
                     add("C18", "fresh", lab2, f"after:global-state:{what}", d[0],
                         f"{lab2} after module-level state {what} changed differs from a pristine process: {d[1]}", i)
+        # ... and a file read by a path relative to the directory the process was started in
+        st3 = {"op": "readsample", "reader": "read_swan", "file": "swanfile.spec", "kw": {}, "rel": True}
+        try:
+            mine, raised = cmp.canon(read_sample(repo, st3, os.path.join(root, "gen"))), None
+        except Exception as exc:
+            mine, raised = None, type(exc).__name__
+        rep = server.call({"kind": "readsample", "st": st3, "repo": repo, "fs_root": os.path.join(root, "gen")})
+        sim.count("battery_calls")
+        if "harness" in rep:
+            raise RuntimeError("reference process failed: " + rep["harness"])
+        if raised is not None or "raised" in rep:
+            if raised != rep.get("raised"):
+                add("C18", "fresh", "read_swan", f"after:global-state:{what}", "exception",
+                    f"read_swan of a relative path {('raises ' + raised) if raised else 'returns'} after process state {what} changed, but in a pristine process it "
+                    f"{('raises ' + rep['raised'] + ': ' + rep.get('msg', '')) if 'raised' in rep else 'returns'}", i)
+        else:
+            d = cmp.compare(rep["ok"], mine, rtol=None)
+            if d:
+                add("C18", "fresh", "read_swan", f"after:global-state:{what}", d[0], f"read_swan of a relative path after process state {what} changed differs from a pristine process: {d[1]}", i)
         for obj, aux, calls in targets:
             for call in calls:
                 try:
